@@ -336,7 +336,7 @@ def _extract_item(unit, out, repo, rel, sel, subs, trel, vacuity, assume_mode=Fa
             if len(found) == 0 and (optional or not os.environ.get("VF_STRICT_REWRITES")):
                 # the text the rule is about is not there (any more): the item is verified as it is written. Not applying a
                 # rewrite never adds an assumption (an R11 outline that is not applied means its helper is not used).
-                unit.skipped_rewrites.append({"rule": rule, "item": label, "file": rel, "pattern": frm, "optional": optional})
+                unit.skipped_rewrites.append({"rule": rule, "item": label, "file": rel, "pattern": frm, "optional": optional, "anycount": anycount})
                 found = []
             elif len(found) != cnt:
                 raise AnchorLost("rewrite-re %s in %s: expected %d matches of %r, found %d" % (rule, sel, cnt, frm, len(found)))
